@@ -2,6 +2,7 @@ package props
 
 import (
 	"bytes"
+	"errors"
 	"fmt"
 	"io"
 	"os"
@@ -339,6 +340,8 @@ func runC17(e *sim.Env) {
 		e.Logf("exhaustive partition %d/%d: %d sequences", part, kvParts, seqs)
 	case e.Chance(1, 3):
 		runC17Chain(e)
+	case e.Chance(1, 4):
+		runC17RefusedWrites(e)
 	default:
 		// seeded longer sequences with crash/reopen on every backend
 		e.Nontrivial = true
@@ -357,6 +360,81 @@ func runC17(e *sim.Env) {
 		}
 		e.Shape("random", bucket(n))
 		runKVSequence(e, ops, bes, "random")
+	}
+}
+
+// runC17RefusedWrites drives the write-caching wrapper over a disk that, for a
+// while, refuses every write to one bucket: a flush that reports an error has
+// made nothing durable, reads keep reflecting the session's writes, cancel
+// discards exactly the unflushed ones (the refused flush's included), and
+// once the disk accepts writes again a flush makes durable what the session
+// holds then - nothing of what was cancelled before.
+func runC17RefusedWrites(e *sim.Env) {
+	e.Shape("refused-writes")
+	e.Nontrivial = true
+	alpha := kvAlphabet()
+	disk := simdisk.New()
+	db := chain.NewCacheDB(disk)
+	model := simdisk.New()
+	refusing := ""
+	disk.FaultAt = func(op, b string) error {
+		if refusing != "" && b == refusing {
+			return errors.New("verif: write refused")
+		}
+		return nil
+	}
+	var hist []string
+	n := e.Range(8, 60)
+	for i := 0; i < n; i++ {
+		e.Step()
+		var op kvOp
+		switch e.Pick(12, 3, 2, 2, 1) {
+		case 0:
+			op = alpha[e.Intn(len(alpha))]
+		case 1:
+			op = kvOp{kind: "flush"}
+		case 2:
+			op = kvOp{kind: "cancel"}
+		case 3:
+			// the disk starts / stops refusing writes to one bucket
+			if refusing == "" {
+				refusing = string(kvBuckets[e.Intn(len(kvBuckets))])
+				e.Fault("disk-refuses-writes-to-a-bucket")
+			} else {
+				refusing = ""
+			}
+			hist = append(hist, "refusing="+refusing)
+			continue
+		case 4:
+			// a stop: only what the disk has committed survives
+			model.Crash()
+			disk.Crash()
+			db = chain.NewCacheDB(disk)
+			hist = append(hist, "crash")
+			e.Fault("crash")
+			if got, want := kvObserve(db), kvObserve(model); got != want {
+				e.Violationf("C17.read-your-writes", "CacheDB(simdisk):after-crash", "refused writes: after %v\n  CacheDB(simdisk) serves %s\n  model says   %s", hist, got, want)
+			}
+			continue
+		}
+		var got string
+		e.Guard("C17.panic", "CacheDB(simdisk)."+op.kind, func() { got = kvApply(db, op) })
+		hist = append(hist, op.String()+"->"+got)
+		switch {
+		case op.kind == "flush" && got == "err=true":
+			// nothing was made durable; the session goes on
+			if refusing == "" {
+				e.Violationf("C17.op-result", "CacheDB(simdisk):flush", "refused writes: Flush returned an error although the disk accepts every write: %v", hist)
+			}
+			e.Probe("flush_refused")
+		default:
+			if want := kvApply(model, op); got != want {
+				e.Violationf("C17.op-result", "CacheDB(simdisk):"+op.kind, "refused writes: after %v the operation %s returned %q, the model says %q", hist, op, got, want)
+			}
+		}
+		if got, want := kvObserve(db), kvObserve(model); got != want {
+			e.Violationf("C17.read-your-writes", "CacheDB(simdisk):"+kvDiffKind(got, want), "refused writes: after %v\n  CacheDB(simdisk) serves %s\n  model says   %s", hist, got, want)
+		}
 	}
 }
 
@@ -433,7 +511,7 @@ func runC17Chain(e *sim.Env) {
 func init() {
 	register(&Prop{
 		ID: "C17", Run: runC17, Quick: 600, Thorough: 6000, Level: "exploration",
-		Rule:        "runs 0..95 enumerate, partitioned by their first two operations, every operation sequence of length <= 4 over {create bucket x2, put x12, delete x6, flush, cancel} on MemDB, CacheDB(MemDB), CacheDB(simdisk) (and every sequence of length <= 2, plus length 3 ending in flush/cancel, on Bolt and CacheDB(Bolt)); later runs draw sequences of length 5-200 with crash+reopen over all five backends, or replay a generated chain history over every backend and compare the served views; after every operation Get of every key and the set yielded by Iter are compared with the reference map model; distinct = abstract shape (mode, length bucket, regime, faults); all runs are non-trivial",
+		Rule:        "runs 0..95 enumerate, partitioned by their first two operations, every operation sequence of length <= 4 over {create bucket x2, put x12, delete x6, flush, cancel} on MemDB, CacheDB(MemDB), CacheDB(simdisk) (and every sequence of length <= 2, plus length 3 ending in flush/cancel, on Bolt and CacheDB(Bolt)); later runs draw sequences of length 5-200 with crash+reopen over all five backends, or replay a generated chain history over every backend and compare the served views, or drive CacheDB over a disk that for a while refuses every write to one bucket (a refused flush makes nothing durable, cancel discards it, later flushes do not bring it back), with crashes; after every operation Get of every key and the set yielded by Iter are compared with the reference map model; distinct = abstract shape (mode, length bucket, regime, faults); all runs are non-trivial",
 		Real:        []string{"chain.MemDB", "chain.CacheDB", "coreutils.BoltChainDB over real bbolt on tmpfs", "chain.DBStore + chain.Manager (history replay)"},
 		Stub:        []string{"reference model: simdisk.DB"},
 		Assumptions: []string{"empty values are excluded (the interface cannot distinguish them from absence)", "iteration order is not part of the contract", "bbolt's own crash atomicity is trusted (crash image = file copy at the last commit)"},
